@@ -37,7 +37,7 @@ def gen_cases(tier, seed):
                 for oc in OUTCOMES:
                     if tier == "quick" and kind != "mem" and (oc in ("mixed",) or prof in ("constant", "sawtooth")):
                         continue
-                    for du in (["none", "ahead", "past"] if (tier == "thorough" or (prof == "constant" and oc == "ok")) else ["none"]):
+                    for du in (["none", "ahead", "far", "past"] if (tier == "thorough" or (prof == "constant" and oc == "ok")) else ["none"]):
                         cases.append({"kind": kind, "p": p, "profile": prof, "outcomes": oc, "du": du, "iters": rnd.choice([8, 12]) if p >= 10 else rnd.choice([10, 16, 25]),
                                       "seed": rnd.randrange(10**6), "latency": None if kind == "mem" else 0.002})
         cases.append({"kind": kind, "p": 3600.0, "profile": "constant", "outcomes": "ok", "du": "none", "iters": 6, "seed": rnd.randrange(10**6), "latency": None, "jump": True})
@@ -105,6 +105,8 @@ async def scenario(loop, case, out, stats, fps, samples):
         now0 = datetime.now()
         if case["du"] == "ahead":
             kw["deferred_until"] = now0 + timedelta(seconds=0.4 * p + 0.123)
+        elif case["du"] == "far":
+            kw["deferred_until"] = now0 + timedelta(seconds=2.5 * p + 0.123)  # several periods ahead: no run before it
         elif case["du"] == "past":
             kw["deferred_until"] = now0 - timedelta(seconds=5)
         job = w.job("act", "r1", {"by_iter": by_iter}, **kw)
@@ -113,16 +115,16 @@ async def scenario(loop, case, out, stats, fps, samples):
         # scheduled time of the first run: what the real function gives at the instant of the enqueue; it must be
         # deferred_until when that is ahead, else strictly ahead of now and at most one period ahead
         first_sched = params0.compute_next_execution_time
-        if case["du"] == "ahead" and first_sched != kw["deferred_until"]:
+        if case["du"] in ("ahead", "far") and first_sched != kw["deferred_until"]:
             out.append(V("first_run", kind, "deferred_until", f"deferred_until {kw['deferred_until']} is ahead but the first run is scheduled for {first_sched}"))
-        if case["du"] != "ahead" and not (now0 < first_sched <= datetime.now() + timedelta(seconds=p)):
+        if case["du"] not in ("ahead", "far") and not (now0 < first_sched <= datetime.now() + timedelta(seconds=p)):
             out.append(V("first_run", kind, "window", f"first run scheduled for {first_sched}; now {now0}, period {p}s"))
         worker = w.worker([r], tasks_limit=10, graceful_shutdown_time=max(5.0, 3 * p), handle_signals=[__import__("signal").SIGUSR1])
 
         def resched_events():
             return [e for e in w.log.events if e.get("k") == "call" and e.get("op") == "requeue" and e.get("depth") == 0 and e.get("id") == "r1" and (e.get("params") or {}).get("tried") == 0]
 
-        horizon = (n + 2) * p + sum(ds[:n]) + 10
+        horizon = (n + 2 + (3 if case["du"] == "far" else 0)) * p + sum(ds[:n]) + 10
         if case.get("jump"):
             # an hour-long period: suspend the process between runs instead of idling through 3.6M polling iterations
             task = loop.create_task(run_worker(w, worker, until=lambda: len(resched_events()) >= n, horizon=n * p + 100, poll=0.5))
@@ -161,7 +163,7 @@ async def scenario(loop, case, out, stats, fps, samples):
         # first run honours deferred_until / the first grid slot
         if starts0:
             t_first = EPOCH + timedelta(seconds=starts0[0]["t"])
-            if case["du"] == "ahead":
+            if case["du"] in ("ahead", "far"):
                 stats["first_run_deferred_until"] += 1
                 if t_first < first_sched - timedelta(milliseconds=1):
                     out.append(V("first_run", kind, "deferred_until", f"first run at {t_first}, before deferred_until {first_sched}"))
